@@ -19,7 +19,7 @@ import (
 func init() {
 	core.Register(&core.Check{
 		ID:      "C12",
-		Rule:    "cases: every real oneof of every linked type (open/hybrid/opaque/legacy/dynamicpb) x PRNG histories (<= 8 steps) of: reflection Set/Mutable/Clear of a member, generated SetX/ClearX, Merge from a message holding another member, merge-decoding wire data with 1-3 members (last wins; same message member merges); after every step at most one member is populated, WhichOneof names it and its value equals the model's; plus JSON and text documents naming two members of one oneof (built by splicing two single-member documents) must be rejected while each single-member document is accepted; distinct = distinct (type, oneof, history); non-trivial = >= 2 member-changing steps",
+		Rule:    "cases: (oneof positions) 48 dynamic message types with 0..3 plain fields before a oneof of 2..5 members of every member kind, 0..2 plain fields and a second oneof after it, driven through the same histories; every real oneof of every linked type (open/hybrid/opaque/legacy/dynamicpb) x PRNG histories (<= 8 steps) of: reflection Set/Mutable/Clear of a member, generated SetX/ClearX, Merge from a message holding another member, merge-decoding wire data with 1-3 members (last wins; same message member merges); after every step at most one member is populated, WhichOneof names it and its value equals the model's; plus JSON and text documents naming two members of one oneof (built by splicing two single-member documents) must be rejected while each single-member document is accepted; distinct = distinct (type, oneof, history); non-trivial = >= 2 member-changing steps",
 		Assume:  []string{"msgmodel oneof semantics (set clears siblings; decode: last member on the wire wins)"},
 		Batches: func(tier string) []core.Batch { return stdBatches([]string{"base"}, 8) },
 		Gates: func(tier string) map[string]int64 {
